@@ -284,6 +284,30 @@ def far_read(rng, exons, scale=1.0):
     return ex if valid_blocks(ex) else None
 
 
+def fake_outer_read(rng, blocks, max_fake, scale=1.0):
+    """audit C01-G1 (fake terminal exon + overhang of the NEXT exon): a short outermost exon - around
+    max_fake_terminal_exon_len, or any length up to it - added beyond one or both ends of `blocks`, the adjacent exon
+    left alone or extended by a tolerated / minor / major amount"""
+    b = [list(x) for x in blocks]
+    for side in rng.sample(["l", "r"], rng.choice([1, 1, 2])):
+        if rng.random() < 0.5:
+            ln = max(1, max_fake + rng.choice([-3, -1, 0, 0, 1, 2]))
+        else:
+            ln = rng.randint(1, max(1, max_fake))
+        gap = rng.randint(1, max(2, int(600 * scale)))
+        ext = rng.choice([0, 0, rng.randint(1, max(1, int(60 * scale))), rng.randint(1, max(2, int(700 * scale)))])
+        if side == "l":
+            b[0][0] -= ext
+            e = b[0][0] - gap - 1
+            b.insert(0, [e - ln + 1, e])
+        else:
+            b[-1][1] += ext
+            e = b[-1][1] + gap + 1
+            b.append([e, e + ln - 1])
+    b = [tuple(x) for x in b]
+    return b if valid_blocks(b) and b[0][0] >= 1 else None
+
+
 def random_blocks(rng, lo, hi, max_blocks=6):
     """arbitrary sorted disjoint blocks around [lo, hi]"""
     n = rng.randint(1, max_blocks)
